@@ -1,6 +1,6 @@
 ---------------------------- MODULE AwGroupingTrace ----------------------------
 (* Judge for C16: recorded calls of merge_events_by_keys, chunk_events_by_key, sort_by_*, limit_events,  *)
-(* sum_durations, filter_keyvals / exclude_keyvals against the relations of AwGrouping.                  *)
+(* sum_durations, concat, filter_keyvals / exclude_keyvals, filter_keyvals_regex against the relations of AwGrouping.                  *)
 EXTENDS AwGrouping, TLC, TLCExt, Json, IOUtils
 
 Traces == JsonDeserialize(IOEnv.TRACE_FILE)
@@ -15,6 +15,8 @@ Clause(r) ==
     [] r.op = "limit"  -> LimitClause(r.inp, r.n, r.out, r.inp2)
     [] r.op = "sum"    -> SumClause(r.inp, r.total, r.inp2)
     [] r.op = "filter" -> FilterClause(r.inp, r.key, r.vals, r.outf, r.outx, r.inp2)
+    [] r.op = "concat" -> ConcatClause(r.inp, r.inpb, r.out, r.inp2, r.inpb2)
+    [] r.op = "regex"  -> RegexClause(r.inp, r.key, r.rx, r.out, r.inp2)
     [] OTHER           -> "unknown-record"
 Init == tid \in 1..Len(Traces) /\ l = 1
 Next == l <= Len(T) /\ l' = l + 1 /\ UNCHANGED tid
